@@ -31,6 +31,15 @@ MUTANTS = [
       "            if not (s >= N):\n                healthy = False", None),
     M("health-benign-local-for-unrecoverable", CHK,
       "        if smap.unrecoverable_versions():\n            healthy = False", "        if unrecoverable:\n            healthy = False", None),
+    M("health-benign-reorder-checks", CHK,
+      "        if smap.unrecoverable_versions():\n            healthy = False\n            summary.append(\"some versions are unrecoverable\")\n"
+      "            report.append(\"Unhealthy: some versions are unrecoverable\")\n"
+      "        if len(recoverable) == 0:\n            healthy = False\n            summary.append(\"no versions are recoverable\")\n"
+      "            report.append(\"Unhealthy: no versions are recoverable\")\n",
+      "        if len(recoverable) == 0:\n            healthy = False\n            summary.append(\"no versions are recoverable\")\n"
+      "            report.append(\"Unhealthy: no versions are recoverable\")\n"
+      "        if smap.unrecoverable_versions():\n            healthy = False\n            summary.append(\"some versions are unrecoverable\")\n"
+      "            report.append(\"Unhealthy: some versions are unrecoverable\")\n", None),
     # ---- C14.2 need_repair
     M("no-repair-for-unrecoverable", CHK,
       "        if servermap.unrecoverable_versions():\n            self.need_repair = True\n", "", "C14.2"),
